@@ -500,40 +500,49 @@ def timeout (s : S) (st : Nat) : S :=
     function of the parent block and its commit votes: the same block in every round) -/
 def ownBlk (s : S) (h _r : Nat) : Blk := 8 * (100 + 50 * h) + s.me
 
+/-- SetByValidatedBlock, only if currentBlockParts still holds the imported block -/
+def S.markValidated (s : S) (ib : Blk) : S :=
+  match s.cur with
+  | .full b _ => if b == ib then { s with cur := .full b true } else s
+  | _ => s
+
+/-- BlockManager.Propose callback (captured hrs = (h, r, propose)) -/
+def asyncPropose (s : S) (h r : Nat) : S :=
+  if s.height != h || s.round != r || s.step != stPropose then s
+  else
+    let b := ownBlk s h r
+    let s := s.sendProposal b (-1)
+    let s := { s with cur := .full b true }
+    enterPrevote fuel0 s
+
+/-- enterPrevote's ImportBlock callback (err == nil) -/
+def asyncImport (s : S) (h r : Nat) (ib : Blk) : S :=
+  if s.height != h || s.round != r || s.step ≥ stCommit then s
+  else
+    let s := s.markValidated ib
+    if s.step ≤ stPrevoteWait then
+      match s.cur with
+      | .full b _ => sendVote fuel0 s .prevote (some b)
+      | _ => { s with stuck := true }     -- Go: nil dereference (unreachable)
+    else s
+
+/-- commitAndEnterNewHeight's ImportBlock callback -/
+def asyncCommit (s : S) (h r : Nat) : S :=
+  if s.height != h || s.round != r || s.step != stCommit then s
+  else match s.cur with
+    | .full b _ =>
+      let s := { s with cur := .full b true }
+      enterNewHeight fuel0 ({ s.emit (.finalize s.height b) with dbHeight := s.height })
+    | _ => { s with stuck := true }
+
 /-- an outstanding BlockManager callback runs -/
 def async (s : S) : S :=
   if !s.started then s
   else match s.pend with
   | .none => s
-  | .propose h r =>
-    let s := { s with pend := .none }
-    if s.height != h || s.round != r || s.step != stPropose then s
-    else
-      let b := ownBlk s h r
-      let s := s.sendProposal b (-1)
-      let s := { s with cur := .full b true }
-      enterPrevote fuel0 s
-  | .import_ h r ib =>
-    let s := { s with pend := .none }
-    if s.height != h || s.round != r || s.step ≥ stCommit then s
-    else
-      -- err == nil: SetByValidatedBlock only if currentBlockParts still holds the imported block
-      let s := match s.cur with
-        | .full b _ => if b == ib then { s with cur := .full b true } else s
-        | _ => s
-      if s.step ≤ stPrevoteWait then
-        match s.cur with
-        | .full b _ => sendVote fuel0 s .prevote (some b)
-        | _ => { s with stuck := true }     -- Go: nil dereference (unreachable: see Proofs)
-      else s
-  | .commit h r =>
-    let s := { s with pend := .none }
-    if s.height != h || s.round != r || s.step != stCommit then s
-    else match s.cur with
-      | .full b _ =>
-        let s := { s with cur := .full b true }
-        enterNewHeight fuel0 ({ s.emit (.finalize s.height b) with dbHeight := s.height })
-      | _ => { s with stuck := true }
+  | .propose h r => asyncPropose { s with pend := .none } h r
+  | .import_ h r ib => asyncImport { s with pend := .none } h r ib
+  | .commit h r => asyncCommit { s with pend := .none } h r
 
 /-! ### restart: applyRoundWAL / applyLockWAL / applyCommitWAL / Start -/
 
